@@ -193,6 +193,20 @@ CLAIMED["C17"] = (
     "DESIGN.md 3 C17",
 )
 
+CLAIMED["C18"] = (
+    XH + " against a statement-level model of sqlite3.Connection (explicit BEGIN/COMMIT, visibility at COMMIT, CREATE/PRAGMA/ALTER/INSERT/SELECT); " + SMT
+    + " (regex theory) for the name filter of SqliteReader.table_names and the identifier quoting",
+    "SqliteWriter.write is decided as an inductive step for ALL record counts with batch sizes 1..8 and with a symbolic batch size: one INSERT inside a transaction, a commit before the "
+    "first record of a new descriptor and after every batch_size-th record, a transaction open afterwards; histories of 3 (4) records over six descriptors (same name grown / swapped / "
+    "shrunk, other names, a name differing by case) x batch sizes 1..4 x an explicit flush show that what another connection can see after each write is exactly the rows up to the "
+    "reference commit point, that after close every record is a committed row with its own values in write order, and that each table's columns are the union of the fields seen; the "
+    "bound values of db_insert_record equal the reference mapping over 18 x 18 value kinds; the reader returns every row of every table once, in order, for every reader batch size; "
+    "no valid type name is rejected by table_names' WHERE clause and no valid name contains a double quote (all strings). Batteries through the real sqlite3 with an observer connection "
+    "and hostile names are concrete side conditions.",
+    "Stand-in: FakeCon / ReadCon (statements the model does not know make the obligation inconclusive). Outside: SQLite's type affinity/storage, real isolation (replayed), duckdb.",
+    "DESIGN.md 3 C18",
+)
+
 NOT_APPLICABLE = {
     "C13": "every operation the property constrains (datetime construction/arithmetic, fromisoformat, zoneinfo, fastavro/sqlite3 conversions) is C code; "
     "CrossHair realises each datetime component at the C constructor and the repo-side logic is two value-free ifs, so no value-level case would be decided by the solver (DESIGN.md 6)",
